@@ -334,12 +334,223 @@ struct Ctx {
     n: usize,
 }
 
+// ------------------------------------------------- harness-side robustness --
+//
+// Every rig / worker / backend *set-up* step (listen, worker configuration, the
+// local side of a connect) is fallible: it is retried with fresh names and ports,
+// and when it still does not succeed the transfer is `inconclusive` - counted, not
+// a failure. The run fails with class `harness-inconclusive` only when more than
+// 5 % of its transfers are inconclusive. What sozu itself shows (its listener
+// refusing / resetting / not answering a connection, anything during a transfer)
+// stays a real failure. Each case runs under `guarded`, so that a residual panic
+// in harness code becomes an inconclusive case with its text, never a missing
+// result file.
+
+/// panic payload: a set-up step of the harness could not be completed
+struct Inconclusive(String);
+/// panic payload: a real observation made where no `fails` is at hand
+struct RealFailure {
+    class: &'static str,
+    detail: String,
+}
+
+const SETUP_ATTEMPTS: usize = 4;
+
+fn inconclusive(what: &str, err: impl std::fmt::Debug) -> ! {
+    std::panic::panic_any(Inconclusive(format!("{what}: {err:?}")))
+}
+
+/// errors of the harness's own resources (ephemeral ports, descriptors, memory), as opposed
+/// to what the peer did
+fn local_resource(e: &RigError) -> bool {
+    let t = format!("{e:?}");
+    matches!(e, RigError::Setup(_))
+        || ["AddrInUse", "AddrNotAvailable", "Too many open files", "OutOfMemory", "No buffer space", "os error 24", "os error 23", "os error 105", "os error 12"].iter().any(|m| t.contains(m))
+}
+
+static INJECT_SETUP: std::sync::atomic::AtomicU64 = std::sync::atomic::AtomicU64::new(0);
+static INJECT_PANIC: std::sync::atomic::AtomicU64 = std::sync::atomic::AtomicU64::new(0);
+
+/// self-test of this machinery: `E2E_INJECT_SETUP_FAIL=N` makes every Nth HTTP route set-up fail,
+/// `E2E_INJECT_PANIC=N` makes every Nth case panic in harness code
+fn injected(var: &str, counter: &std::sync::atomic::AtomicU64) -> bool {
+    match std::env::var(var).ok().and_then(|v| v.parse::<u64>().ok()) {
+        Some(n) if n > 0 => (counter.fetch_add(1, std::sync::atomic::Ordering::Relaxed) + 1) % n == 0,
+        _ => false,
+    }
+}
+
+/// a set-up step without side effects on the worker: retried as it is
+fn setup<X>(what: &str, mut f: impl FnMut() -> RigResult<X>) -> X {
+    let mut last = None;
+    for attempt in 0..SETUP_ATTEMPTS {
+        match f() {
+            Ok(v) => return v,
+            Err(e) => last = Some(e),
+        }
+        std::thread::sleep(Duration::from_millis(40 * (attempt as u64 + 1)));
+    }
+    inconclusive(what, last)
+}
+
+/// backend + cluster + frontend + backend entry on the HTTP listener, under a fresh host name
+/// (`<prefix><n>.test`) at every attempt, so that a half-applied attempt cannot disturb the next
+fn route_h1(ctx: &mut Ctx, prefix: &str, h2_backend: bool, opts: ConnOpts) -> (String, MockBackend) {
+    if injected("E2E_INJECT_SETUP_FAIL", &INJECT_SETUP) {
+        inconclusive("backend listen + http route", "injected by E2E_INJECT_SETUP_FAIL");
+    }
+    let mut last = String::new();
+    for attempt in 0..SETUP_ATTEMPTS {
+        ctx.n += 1;
+        let host = format!("{prefix}{}.test", ctx.n);
+        let r = MockBackend::listen_with(opts.clone()).and_then(|be| {
+            ctx.w.add_http_route(ctx.front, &host, "/", &format!("{prefix}c{}", ctx.n), be.addr, h2_backend).map(|_| be)
+        });
+        match r {
+            Ok(be) => return (host, be),
+            Err(e) => last = format!("{e:?}"),
+        }
+        if !ctx.w.alive().is_alive() {
+            // the worker is gone: nothing a retry can do, and `worker-died` is reported by the caller
+            break;
+        }
+        std::thread::sleep(Duration::from_millis(40 * (attempt as u64 + 1)));
+    }
+    inconclusive("backend listen + http route", last)
+}
+
+/// the same on the HTTPS listener: path `/<prefix><n>`, cluster `<prefix>x<n>`
+fn route_tls(ctx: &mut Ctx, tls: &mut TlsCtx, prefix: &str, h2_backend: bool) -> (String, String, MockBackend) {
+    let mut last = String::new();
+    for attempt in 0..SETUP_ATTEMPTS {
+        tls.n += 1;
+        let path = format!("/{prefix}{}", tls.n);
+        let cid = format!("{prefix}x{}", tls.n);
+        let r = MockBackend::listen().and_then(|be| {
+            let mut cl = cluster(&cid);
+            if h2_backend {
+                cl.http2 = Some(true);
+            }
+            ctx.w.add_cluster(cl)?;
+            ctx.w.add_https_frontend(tls.front, "localhost", &path, &cid)?;
+            ctx.w.add_backend(&cid, &format!("{cid}-0"), be.addr)?;
+            Ok(be)
+        });
+        match r {
+            Ok(be) => return (path, cid, be),
+            Err(e) => last = format!("{e:?}"),
+        }
+        if !ctx.w.alive().is_alive() {
+            break;
+        }
+        std::thread::sleep(Duration::from_millis(40 * (attempt as u64 + 1)));
+    }
+    inconclusive("backend listen + https route", last)
+}
+
+/// client connection to sozu's HTTP listener. No local port / descriptor: inconclusive.
+/// Refused, reset, timed out: that is sozu, a real failure.
+fn connect_front(addr: std::net::SocketAddr) -> RawConn {
+    match RawConn::connect(addr) {
+        Ok(c) => c,
+        Err(e) if local_resource(&e) => inconclusive("client connect (local resources)", e),
+        Err(e) => std::panic::panic_any(RealFailure { class: "listener-connect-failed", detail: format!("connect to sozu's listener {addr}: {e:?}") }),
+    }
+}
+
+/// TLS client connection to sozu's HTTPS listener: local-resource errors are inconclusive, every
+/// other error goes back to the case (which reports it as a failed transfer)
+fn tls_front(addr: std::net::SocketAddr, io_timeout: Duration) -> RigResult<TlsStream> {
+    match tls_connect(addr, "localhost", &["h2"], io_timeout) {
+        Err(e) if local_resource(&e) => inconclusive("tls client connect (local resources)", e),
+        other => other,
+    }
+}
+
+#[derive(Default)]
+struct Guard {
+    inconclusive: u64,
+    notes: Vec<String>,
+}
+
+static LAST_PANIC: std::sync::Mutex<Option<String>> = std::sync::Mutex::new(None);
+
+/// main-thread panics: remember text and place, print nothing for the two payload types above
+fn install_panic_recorder() {
+    let prev = std::panic::take_hook();
+    std::panic::set_hook(Box::new(move |info| {
+        let p = info.payload();
+        if p.is::<Inconclusive>() || p.is::<RealFailure>() {
+            return;
+        }
+        if std::thread::current().name() == Some("main") {
+            let msg = p.downcast_ref::<&str>().map(|s| s.to_string()).or_else(|| p.downcast_ref::<String>().cloned()).unwrap_or_else(|| "(non-string payload)".into());
+            let at = info.location().map(|l| format!("{}:{}:{}", l.file(), l.line(), l.column())).unwrap_or_default();
+            if let Ok(mut g) = LAST_PANIC.lock() {
+                *g = Some(format!("{msg} at {at}"));
+            }
+        }
+        prev(info);
+    }));
+}
+
+/// Run one case. `None`: the case ended on a harness-side problem (counted as inconclusive) or on a
+/// `RealFailure` (pushed to `fails`).
+fn guarded<R>(g: &mut Guard, what: &str, fails: &mut Vec<Fail>, dist: &mut BTreeMap<String, u64>, f: impl FnOnce(&mut Vec<Fail>, &mut BTreeMap<String, u64>) -> R) -> Option<R> {
+    if let Ok(mut l) = LAST_PANIC.lock() {
+        *l = None;
+    }
+    let r = std::panic::catch_unwind(std::panic::AssertUnwindSafe(|| {
+        if injected("E2E_INJECT_PANIC", &INJECT_PANIC) {
+            let v: Vec<u8> = vec![];
+            let i = v.len() + 3;
+            let _ = v[i]; // an ordinary harness bug
+        }
+        f(&mut *fails, &mut *dist)
+    }));
+    match r {
+        Ok(v) => Some(v),
+        Err(p) => {
+            if let Some(rf) = p.downcast_ref::<RealFailure>() {
+                fails.push(Fail { class: rf.class.into(), detail: rf.detail.clone(), case: what.into() });
+                return None;
+            }
+            let text = match p.downcast_ref::<Inconclusive>() {
+                Some(i) => format!("set-up: {}", i.0),
+                None => {
+                    let rec = LAST_PANIC.lock().ok().and_then(|mut l| l.take());
+                    format!("harness panic: {}", rec.unwrap_or_else(|| "(no text)".into()))
+                }
+            };
+            g.inconclusive += 1;
+            *dist.entry("inconclusive".into()).or_insert(0) += 1;
+            if g.notes.len() < 20 {
+                g.notes.push(format!("{what}: {text}"));
+            }
+            None
+        }
+    }
+}
+
 static CLOSE_DELIMITED_SEEN: std::sync::atomic::AtomicUsize = std::sync::atomic::AtomicUsize::new(0);
 
 fn new_ctx() -> Result<Ctx, String> {
-    let mut w = Worker::start(WorkerOpts::default()).map_err(|e| format!("start: {e:?}"))?;
-    let front = w.add_http_listener().map_err(|e| format!("listener: {e:?}"))?;
-    Ok(Ctx { w, front, n: 0 })
+    let mut last = String::new();
+    for attempt in 0..SETUP_ATTEMPTS {
+        let r = Worker::start(WorkerOpts::default()).map_err(|e| format!("start: {e:?}")).and_then(|mut w| match w.add_http_listener() {
+            Ok(front) => Ok(Ctx { w, front, n: 0 }),
+            Err(e) => {
+                w.stop();
+                Err(format!("listener: {e:?}"))
+            }
+        });
+        match r {
+            Ok(c) => return Ok(c),
+            Err(e) => last = e,
+        }
+        std::thread::sleep(Duration::from_millis(100 * (attempt as u64 + 1)));
+    }
+    Err(last)
 }
 
 fn request_bytes(host: &str, body: &[u8], chunked: bool, rng: &mut Rng) -> Vec<u8> {
@@ -398,10 +609,7 @@ fn cmp_body(what: &str, got: &[u8], want: &[u8], class: &str, case: &str, fails:
 
 /// H1 client -> sozu -> H1 backend, `reqs` requests on one keep-alive connection
 fn case_h1_h1(ctx: &mut Ctx, rng: &mut Rng, sizes: &[usize], fails: &mut Vec<Fail>, dist: &mut BTreeMap<String, u64>) -> String {
-    ctx.n += 1;
-    let host = format!("a{}.test", ctx.n);
-    let be = MockBackend::listen().unwrap();
-    ctx.w.add_http_route(ctx.front, &host, "/", &format!("c{}", ctx.n), be.addr, false).unwrap();
+    let (host, be) = route_h1(ctx, "a", false, ConnOpts::default());
     let reqs = rng.range(1, 3) as usize;
     let mut plan = vec![];
     for _ in 0..reqs {
@@ -456,7 +664,7 @@ fn case_h1_h1(ctx: &mut Ctx, rng: &mut Rng, sizes: &[usize], fails: &mut Vec<Fai
         }
         Ok(got)
     });
-    let mut c = RawConn::connect(ctx.front).unwrap();
+    let mut c = connect_front(ctx.front);
     let mut resp_bodies = vec![];
     let mut err = None;
     for (i, (body, chunked, _, _)) in plan.iter().enumerate() {
@@ -536,16 +744,13 @@ fn case_h1_h2c(ctx: &mut Ctx, rng: &mut Rng, req_len: usize, plan: H2Plan, slow:
 
 #[allow(clippy::too_many_arguments)]
 fn case_h1_h2c_once(ctx: &mut Ctx, rng: &mut Rng, req_len: usize, plan: H2Plan, slow: bool, fails: &mut Vec<Fail>, dist: &mut BTreeMap<String, u64>, tag: &str) -> (String, H2Report) {
-    ctx.n += 1;
-    let host = format!("b{}.test", ctx.n);
-    let be = MockBackend::listen_with(ConnOpts { rcvbuf: if slow { Some(4096) } else { None }, ..ConnOpts::default() }).unwrap();
-    ctx.w.add_http_route(ctx.front, &host, "/", &format!("c{}", ctx.n), be.addr, true).unwrap();
+    let (host, be) = route_h1(ctx, "b", true, ConnOpts { rcvbuf: if slow { Some(4096) } else { None }, ..ConnOpts::default() });
     let body = pattern(rng.below(200) as usize, req_len);
     let chunked = rng.chance(1, 2);
     let case = format!("h1-h2c[{tag}] host={host} req={req_len} chunked={chunked} init_window={:?} conn_bump={} stingy={} drip={} read_max={} resp={}", plan.init_window, plan.conn_bump, plan.stingy, plan.drip, plan.read_max, plan.resp_body.len());
     let resp_want = plan.resp_body.clone();
     let bt = std::thread::spawn(move || serve_h2c(be, plan, 1));
-    let mut c = RawConn::connect(ctx.front).unwrap();
+    let mut c = connect_front(ctx.front);
     let bytes = request_bytes(&host, &body, chunked, rng);
     let send_err = client_send(&mut c, &bytes, rng).err();
     let resp = read_http_message(&mut c, Duration::from_secs(4));
@@ -606,6 +811,75 @@ fn case_h1_h2c_once(ctx: &mut Ctx, rng: &mut Rng, req_len: usize, plan: H2Plan, 
     (case, rep)
 }
 
+/// Two requests, one after the other, on ONE HTTP/1.1 keep-alive client connection, towards an
+/// h2c backend that is healthy and generous (1 MiB windows, answers every stream with 200 and a
+/// small body). The first exchange is complete (response read to its last byte) before the second
+/// request is written, and the second request is written in full. sozu has everything it needs to
+/// forward it: a 502 (or any other answer made up by sozu) for it is
+/// `h1-h2c-keepalive-second-request-502`.
+fn case_h1_h2c_keepalive(ctx: &mut Ctx, req_len: usize, fails: &mut Vec<Fail>, dist: &mut BTreeMap<String, u64>) -> String {
+    let (host, be) = route_h1(ctx, "ka", true, ConnOpts::default());
+    let case = format!("h1-h2c-keepalive host={host} requests=2 req={req_len} on one client connection");
+    *dist.entry("pair:h1-h2c:keepalive".into()).or_insert(0) += 1;
+    let plan = H2Plan { init_window: Some(1 << 20), conn_bump: 1 << 20, stingy: false, drip: 1 << 20, read_max: 1 << 16, read_pause: Duration::ZERO, resp_body: b"pong".to_vec(), resp_content_length: true };
+    let bt = std::thread::spawn(move || serve_h2c(be, plan, 2));
+    let mut c = connect_front(ctx.front);
+    let mut outcome: Vec<String> = vec![];
+    let mut second: Option<Result<HttpMessage, String>> = None;
+    let mut first_ok = false;
+    for i in 0..2usize {
+        let body = pattern(7 + i, req_len);
+        let mut bytes = format!("POST /r{i} HTTP/1.1\r\nHost: {host}\r\nContent-Length: {}\r\n\r\n", body.len()).into_bytes();
+        bytes.extend_from_slice(&body);
+        let before = c.parsed;
+        if let Err(e) = c.write_all(&bytes, T) {
+            outcome.push(format!("request {}: write failed: {e:?}", i + 1));
+            if i == 1 {
+                second = Some(Err(format!("write: {e:?}")));
+            }
+            break;
+        }
+        let r = read_http_message(&mut c, T);
+        outcome.push(match &r {
+            Ok(m) => format!("request {}: {} ({} body bytes)", i + 1, m.start_line, m.body.len()),
+            Err(e) => format!("request {}: {e:?} ({} bytes received)", i + 1, c.received.len() - before.min(c.received.len())),
+        });
+        if i == 0 {
+            first_ok = matches!(&r, Ok(m) if m.status() == Some(200) && m.body == b"pong");
+            if !first_ok {
+                break;
+            }
+        } else {
+            second = Some(r.map_err(|e| format!("{e:?}")));
+        }
+    }
+    c.close();
+    let rep = bt.join().unwrap_or_default();
+    let backend = format!("backend saw streams {:?} (complete: {:?}), rst {:?}, goaway {:?}, end: {:?}", rep.bodies.keys().collect::<Vec<_>>(), rep.ended.keys().collect::<Vec<_>>(), rep.rst, rep.goaway, rep.error);
+    if !first_ok {
+        // not this scenario's subject: the plain single transfer is covered by the h1-h2c cases
+        fails.push(Fail { class: "h1-h2c-transfer-failed".into(), detail: format!("first request of the keep-alive pair: {}; {backend}", outcome.join("; ")), case: case.clone() });
+        return case;
+    }
+    match second {
+        Some(Ok(m)) if m.status() == Some(200) && m.body == b"pong" => {
+            let want = pattern(8, req_len);
+            let got = rep.bodies.values().nth(1).cloned().unwrap_or_default();
+            cmp_body("second request body at the h2c backend", &got, &want, "h1-h2c-request-body-differs", &case, fails);
+        }
+        Some(Ok(m)) => {
+            let by_sozu = matches!(m.status(), Some(502) | Some(503) | Some(504) | Some(500));
+            let class = if by_sozu { "h1-h2c-keepalive-second-request-502" } else { "h1-h2c-transfer-failed" };
+            fails.push(Fail { class: class.into(), detail: format!("the second request on a kept-alive HTTP/1.1 connection, written in full after the first exchange had ended with 200, was answered `{}` although the h2c backend is up and answered the first one; {}; {backend}", m.start_line, outcome.join("; ")), case: case.clone() });
+        }
+        Some(Err(e)) => {
+            fails.push(Fail { class: "h1-h2c-keepalive-second-request-502".into(), detail: format!("the second request on a kept-alive HTTP/1.1 connection, written after the first exchange had ended with 200, got no answer ({e}) although the h2c backend is up; {}; {backend}", outcome.join("; ")), case: case.clone() });
+        }
+        None => {}
+    }
+    case
+}
+
 // ------------------------------------------------- TLS HTTP/2 client (thorough) --
 
 struct TlsCtx {
@@ -614,11 +888,26 @@ struct TlsCtx {
 }
 
 fn new_tls_listener(ctx: &mut Ctx) -> Result<TlsCtx, String> {
-    let front = ctx.w.add_https_listener().map_err(|e| format!("https listener: {e:?}"))?;
-    ctx.w
-        .add_certificate(front, asset("local-certificate.pem").map_err(|e| format!("{e:?}"))?, asset("local-key.pem").map_err(|e| format!("{e:?}"))?, vec![])
-        .map_err(|e| format!("certificate: {e:?}"))?;
-    Ok(TlsCtx { front, n: 0 })
+    let mut last = String::new();
+    for attempt in 0..SETUP_ATTEMPTS {
+        // a fresh listener (fresh port) at every attempt
+        let r = (|| -> Result<TlsCtx, String> {
+            let front = ctx.w.add_https_listener().map_err(|e| format!("https listener: {e:?}"))?;
+            ctx.w
+                .add_certificate(front, asset("local-certificate.pem").map_err(|e| format!("{e:?}"))?, asset("local-key.pem").map_err(|e| format!("{e:?}"))?, vec![])
+                .map_err(|e| format!("certificate: {e:?}"))?;
+            Ok(TlsCtx { front, n: 0 })
+        })();
+        match r {
+            Ok(t) => return Ok(t),
+            Err(e) => last = e,
+        }
+        if !ctx.w.alive().is_alive() {
+            break;
+        }
+        std::thread::sleep(Duration::from_millis(100 * (attempt as u64 + 1)));
+    }
+    Err(last)
 }
 
 /// HTTP/2-over-TLS client -> sozu -> HTTP/1.1 backend. The client keeps the ledger of the windows
@@ -626,13 +915,7 @@ fn new_tls_listener(ctx: &mut Ctx) -> Result<TlsCtx, String> {
 #[allow(clippy::too_many_arguments)]
 fn case_h2_h1(ctx: &mut Ctx, tls: &mut TlsCtx, rng: &mut Rng, req_len: usize, resp_len: usize, iw: u32, stingy: bool, fails: &mut Vec<Fail>, dist: &mut BTreeMap<String, u64>) -> String {
     use std::io::{Read, Write};
-    tls.n += 1;
-    let path = format!("/t{}", tls.n);
-    let cid = format!("t{}", tls.n);
-    let be = MockBackend::listen().unwrap();
-    ctx.w.add_cluster(cluster(&cid)).unwrap();
-    ctx.w.add_https_frontend(tls.front, "localhost", &path, &cid).unwrap();
-    ctx.w.add_backend(&cid, &format!("{cid}-0"), be.addr).unwrap();
+    let (path, _cid, be) = route_tls(ctx, tls, "t", false);
     let body = pattern(rng.below(200) as usize, req_len);
     let resp_body = pattern(rng.below(200) as usize, resp_len);
     let resp_chunked = rng.chance(1, 2);
@@ -659,7 +942,7 @@ fn case_h2_h1(ctx: &mut Ctx, tls: &mut TlsCtx, rng: &mut Rng, req_len: usize, re
         let _ = b.read_until_closed_or(Duration::from_millis(300));
         Ok(req.body)
     });
-    let mut st = match tls_connect(tls.front, "localhost", &["h2"], Duration::from_millis(100)) {
+    let mut st = match tls_front(tls.front, Duration::from_millis(100)) {
         Ok(s) => s,
         Err(e) => {
             fails.push(Fail { class: "h2tls-h1-transfer-failed".into(), detail: format!("tls connect: {e:?}"), case: case.clone() });
@@ -900,7 +1183,7 @@ fn judge_h1_requests(raw: &[u8]) -> Judged {
                     j.error = Some(("h2-h1-chunk-size-mismatch".into(), format!("offset {p}: expected a chunk-size line, found {:?}", String::from_utf8_lossy(&size_line[..size_line.len().min(40)]))));
                     return j;
                 }
-                let n = usize::from_str_radix(std::str::from_utf8(size_line).unwrap(), 16).unwrap_or(usize::MAX);
+                let n = std::str::from_utf8(size_line).ok().and_then(|t| usize::from_str_radix(t, 16).ok()).unwrap_or(usize::MAX);
                 p = le + 2;
                 if n == 0 {
                     // trailer section, then the empty line
@@ -961,13 +1244,7 @@ fn padded_frame(sid: u32, d: &DataSpec) -> Vec<u8> {
 /// run one scripted exchange; returns the case description
 fn case_h2front(ctx: &mut Ctx, tls: &mut TlsCtx, spec: &H2Spec, prop: &str, fails: &mut Vec<Fail>, dist: &mut BTreeMap<String, u64>) -> String {
     use std::io::{Read, Write};
-    tls.n += 1;
-    let path = format!("/f{}", tls.n);
-    let cid = format!("f{}", tls.n);
-    let be = MockBackend::listen().unwrap();
-    ctx.w.add_cluster(cluster(&cid)).unwrap();
-    ctx.w.add_https_frontend(tls.front, "localhost", &path, &cid).unwrap();
-    ctx.w.add_backend(&cid, &format!("{cid}-0"), be.addr).unwrap();
+    let (path, _cid, be) = route_tls(ctx, tls, "f", false);
     let expected_body: Vec<u8> = spec.frames.iter().flat_map(|f| f.content.iter().copied()).collect();
     let case = format!(
         "h2front[{}] path={path} content-length={} frames={:?} trailers={} win={:?} resp={}",
@@ -1019,7 +1296,7 @@ fn case_h2front(ctx: &mut Ctx, tls: &mut TlsCtx, spec: &H2Spec, prop: &str, fail
         }
         Ok(b.received.clone())
     });
-    let mut st = match tls_connect(tls.front, "localhost", &["h2"], Duration::from_millis(60)) {
+    let mut st = match tls_front(tls.front, Duration::from_millis(60)) {
         Ok(s) => s,
         Err(e) => {
             client_done.store(true, std::sync::atomic::Ordering::Relaxed);
@@ -1512,17 +1789,14 @@ fn serve_h2c_overlap(be: MockBackend, plan: OverlapPlan) -> OverlapReport {
 fn case_overlap_h2c(ctx: &mut Ctx, plan: &OverlapPlan, fails: &mut Vec<Fail>, dist: &mut BTreeMap<String, u64>) -> String {
     let mut last_case = String::new();
     for attempt in 0..4 {
-        ctx.n += 1;
-        let host = format!("o{}.test", ctx.n);
-        let be = MockBackend::listen_with(ConnOpts { rcvbuf: Some(plan.rcvbuf), ..ConnOpts::default() }).unwrap();
-        ctx.w.add_http_route(ctx.front, &host, "/", &format!("o{}", ctx.n), be.addr, true).unwrap();
+        let (host, be) = route_h1(ctx, "o", true, ConnOpts { rcvbuf: Some(plan.rcvbuf), ..ConnOpts::default() });
         let case = format!("overlap-h2c host={host} upload={} rcvbuf={} burst={} pause={:?} resp_frames_per_pause={} attempt={attempt}", plan.upload, plan.rcvbuf, plan.burst, plan.pause, plan.frames_per_pause);
         last_case = case.clone();
         *dist.entry("overlap:h1-h2c".into()).or_insert(0) += 1;
         let p2 = plan.clone();
         let bt = std::thread::spawn(move || serve_h2c_overlap(be, p2));
-        let mut c = RawConn::connect(ctx.front).unwrap();
-        let wstream = c.stream.try_clone().unwrap();
+        let mut c = connect_front(ctx.front);
+        let wstream = setup("clone the client socket", || c.stream.try_clone().map_err(RigError::from));
         let upload = plan.upload;
         let host2 = host.clone();
         // writer thread: the whole upload, as fast as sozu takes it
@@ -1610,13 +1884,7 @@ fn case_overlap_h2c(ctx: &mut Ctx, plan: &OverlapPlan, fails: &mut Vec<Fail>, di
 /// bytes from an HTTP/1.1 backend that answers at once; every frame is validated
 fn case_overlap_h2front(ctx: &mut Ctx, tls: &mut TlsCtx, upload: usize, download: usize, read_chunk: usize, fails: &mut Vec<Fail>, dist: &mut BTreeMap<String, u64>) -> String {
     use std::io::{Read, Write};
-    tls.n += 1;
-    let path = format!("/o{}", tls.n);
-    let cid = format!("ov{}", tls.n);
-    let be = MockBackend::listen().unwrap();
-    ctx.w.add_cluster(cluster(&cid)).unwrap();
-    ctx.w.add_https_frontend(tls.front, "localhost", &path, &cid).unwrap();
-    ctx.w.add_backend(&cid, &format!("{cid}-0"), be.addr).unwrap();
+    let (path, _cid, be) = route_tls(ctx, tls, "o", false);
     let case = format!("overlap-h2front path={path} upload={upload} download={download} client_read_chunk={read_chunk}");
     *dist.entry("overlap:h2tls-h1".into()).or_insert(0) += 1;
     let stop = std::sync::Arc::new(std::sync::atomic::AtomicBool::new(false));
@@ -1627,7 +1895,10 @@ fn case_overlap_h2front(ctx: &mut Ctx, tls: &mut TlsCtx, upload: usize, download
         if b.read_until(b"\r\n\r\n", T) != ReadEnd::Done {
             return Err("no request head".into());
         }
-        let head_end = find(&b.received, b"\r\n\r\n").unwrap() + 4;
+        let head_end = match find(&b.received, b"\r\n\r\n") {
+            Some(i) => i + 4,
+            None => return Err("no request head".into()),
+        };
         let wstream = b.stream.try_clone().map_err(|e| e.to_string())?;
         let stop_w = stop_b.clone();
         let upload_done = std::sync::Arc::new(std::sync::atomic::AtomicBool::new(false));
@@ -1676,7 +1947,7 @@ fn case_overlap_h2front(ctx: &mut Ctx, tls: &mut TlsCtx, upload: usize, download
         }
         Ok(checked)
     });
-    let mut st = match tls_connect(tls.front, "localhost", &["h2"], Duration::from_millis(5)) {
+    let mut st = match tls_front(tls.front, Duration::from_millis(5)) {
         Ok(s) => s,
         Err(e) => {
             stop.store(true, std::sync::atomic::Ordering::Relaxed);
@@ -1969,13 +2240,7 @@ enum HpStep {
 
 fn case_front_hpack(ctx: &mut Ctx, tls: &mut TlsCtx, name: &str, start: Option<u32>, steps: &[HpStep], fails: &mut Vec<Fail>, dist: &mut BTreeMap<String, u64>) -> String {
     use std::io::{Read, Write};
-    tls.n += 1;
-    let path = format!("/h{}", tls.n);
-    let cid = format!("hp{}", tls.n);
-    let be = MockBackend::listen().unwrap();
-    ctx.w.add_cluster(cluster(&cid)).unwrap();
-    ctx.w.add_https_frontend(tls.front, "localhost", &path, &cid).unwrap();
-    ctx.w.add_backend(&cid, &format!("{cid}-0"), be.addr).unwrap();
+    let (path, _cid, be) = route_tls(ctx, tls, "h", false);
     let case = format!("hpack-front[{name}] path={path} start={start:?} steps={steps:?}");
     *dist.entry(format!("hpack-front:{name}")).or_insert(0) += 1;
     let reqs: Vec<(usize, usize)> = steps.iter().filter_map(|s| if let HpStep::Request { set, body, .. } = s { Some((*set, *body)) } else { None }).collect();
@@ -2007,7 +2272,7 @@ fn case_front_hpack(ctx: &mut Ctx, tls: &mut TlsCtx, name: &str, start: Option<u
         }
     });
     let finish = |fails: &mut Vec<Fail>, class: &str, detail: String| fails.push(Fail { class: class.into(), detail, case: case.clone() });
-    let mut st = match tls_connect(tls.front, "localhost", &["h2"], Duration::from_millis(40)) {
+    let mut st = match tls_front(tls.front, Duration::from_millis(40)) {
         Ok(s) => s,
         Err(e) => {
             stop.store(true, std::sync::atomic::Ordering::Relaxed);
@@ -2185,7 +2450,7 @@ fn case_front_hpack(ctx: &mut Ctx, tls: &mut TlsCtx, name: &str, start: Option<u
 /// the go-ahead; returns an error text if an exchange did not complete with 200
 fn drive_h2_requests<R>(front: std::net::SocketAddr, path: &str, steps: &[HpStep], turn: &std::sync::atomic::AtomicUsize, bt: &std::thread::JoinHandle<R>) -> Option<String> {
     use std::io::{Read, Write};
-    let mut st = match tls_connect(front, "localhost", &["h2"], Duration::from_millis(30)) {
+    let mut st = match tls_front(front, Duration::from_millis(30)) {
         Ok(s) => s,
         Err(e) => return Some(format!("tls connect: {e:?}")),
     };
@@ -2326,24 +2591,16 @@ fn case_back_hpack(ctx: &mut Ctx, tls: Option<&mut TlsCtx>, name: &str, start: O
     let mut last = String::new();
     let mut tls = tls;
     for attempt in 0..3 {
-        ctx.n += 1;
-        let host = format!("k{}.test", ctx.n);
-        let be = MockBackend::listen().unwrap();
         let mut tls_path = String::new();
-        match tls.as_deref_mut() {
-            None => ctx.w.add_http_route(ctx.front, &host, "/", &format!("k{}", ctx.n), be.addr, true).unwrap(),
+        let (host, be) = match tls.as_deref_mut() {
+            None => route_h1(ctx, "k", true, ConnOpts::default()),
             Some(t) => {
                 // several streams of one TLS HTTP/2 session share one h2c backend connection
-                t.n += 1;
-                tls_path = format!("/k{}", t.n);
-                let cid = format!("kb{}", t.n);
-                let mut cl = cluster(&cid);
-                cl.http2 = Some(true);
-                ctx.w.add_cluster(cl).unwrap();
-                ctx.w.add_https_frontend(t.front, "localhost", &tls_path, &cid).unwrap();
-                ctx.w.add_backend(&cid, &format!("{cid}-0"), be.addr).unwrap();
+                let (path, cid, be) = route_tls(ctx, t, "k", true);
+                tls_path = path;
+                (format!("{cid}.tls"), be)
             }
-        }
+        };
         let driver = if tls.is_some() { "h2tls" } else { "h1" };
         let case = format!("hpack-back[{name}/{driver}] host={host} start={start:?} steps={steps:?} attempt={attempt}");
         last = case.clone();
@@ -2522,7 +2779,7 @@ fn case_back_hpack(ctx: &mut Ctx, tls: Option<&mut TlsCtx>, name: &str, start: O
             client_err = drive_h2_requests(t.front, &tls_path, steps, &turn, &bt);
         }
         // the HTTP/1.1 client: one connection, request i when the backend says so
-        let mut c = RawConn::connect(ctx.front).unwrap();
+        let mut c = connect_front(ctx.front);
         let mut first = true;
         for (i, step) in steps.iter().enumerate() {
             if tls.is_some() {
@@ -2612,6 +2869,8 @@ fn hpack_scenarios() -> Vec<(&'static str, Option<u32>, Vec<HpStep>)> {
 
 fn main() {
     silence_worker_panics();
+    install_panic_recorder();
+    let mut guard = Guard::default();
     let args = parse_args();
     let thorough = args.thorough();
     let t0 = Instant::now();
@@ -2627,8 +2886,11 @@ fn main() {
     let mut ctx = match new_ctx() {
         Ok(c) => c,
         Err(e) => {
-            fails.push(Fail { class: "rig-setup".into(), detail: e, case: "-".into() });
-            finish(&args, evaluations, &dist, &samples, &fails, &known_witnesses, t0);
+            // no worker / listener after several attempts: nothing was observed
+            guard.inconclusive += 1;
+            guard.notes.push(format!("worker + listener set-up: {e}"));
+            evaluations += 1;
+            finish(&args, evaluations, &dist, &samples, &mut fails, &known_witnesses, &guard, t0);
             return;
         }
     };
@@ -2636,7 +2898,7 @@ fn main() {
     if std::env::var("E2E_DEBUG_CLOSE").is_ok() {
         let be = MockBackend::listen().unwrap();
         ctx.w.add_http_route(ctx.front, "z.test", "/", "cz", be.addr, false).unwrap();
-        let mut c = RawConn::connect(ctx.front).unwrap();
+        let mut c = connect_front(ctx.front);
         c.write_all(b"GET / HTTP/1.1\r\nHost: z.test\r\n\r\n", T).unwrap();
         let mut b = be.accept(T).unwrap();
         let _ = read_http_message(&mut b, T);
@@ -2658,11 +2920,12 @@ fn main() {
         let req: usize = std::env::var("E2E_DEBUG_REQ").ok().and_then(|v| v.parse().ok()).unwrap_or(200000);
         let plan = H2Plan { init_window: Some(iw), conn_bump: 1, stingy: false, drip: 100, read_max: 1 << 16, read_pause: Duration::ZERO, resp_body: pattern(3, 65535), resp_content_length: true };
         let (case, rep) = case_h1_h2c(&mut ctx, &mut rng, req, plan, false, &mut fails, &mut dist, "debug");
+        let _ = &guard;
         eprintln!("rst={:?} goaway={:?}", rep.rst, rep.goaway);
         std::thread::sleep(Duration::from_millis(50));
         ctx.w.stop();
         eprintln!("{case} frames={} err={:?}", rep.frames, rep.error);
-        finish(&args, 1, &dist, &samples, &fails, &known_witnesses, t0);
+        finish(&args, 1, &dist, &samples, &mut fails, &known_witnesses, &guard, t0);
         return;
     }
     // ---- h2front family: TLS HTTP/2 client -> HTTP/1.1 backend, strict reader at the backend ----
@@ -2670,25 +2933,29 @@ fn main() {
     if family != "overlap" && family != "overlap-front" {
         let mut frng = Rng::new(args.seed ^ 0xf207);
         match new_tls_listener(&mut ctx) {
-            Err(e) => fails.push(Fail { class: "rig-setup".into(), detail: e, case: "h2front".into() }),
+            Err(e) => {
+                guard.inconclusive += 1;
+                guard.notes.push(format!("h2front https listener set-up: {e}"));
+                evaluations += 1;
+            }
             Ok(mut t) => {
                 if args.prop != "C03" {
                     for (name, start, steps) in hpack_scenarios() {
-                        let case = case_front_hpack(&mut ctx, &mut t, name, start, &steps, &mut fails, &mut dist);
+                        let case = guarded(&mut guard, &format!("hpack-front[{name}]"), &mut fails, &mut dist, |fails, dist| case_front_hpack(&mut ctx, &mut t, name, start, &steps, fails, dist));
                         evaluations += 1;
-                        if samples.len() < 2 {
+                        if let (Some(case), true) = (case, samples.len() < 2) {
                             samples.push(json!({"case": case}));
                         }
                     }
                     if family.is_empty() || family == "hpack" {
                         for (name, start, steps) in hpack_scenarios() {
-                            let _ = case_back_hpack(&mut ctx, Some(&mut t), name, start, &steps, &mut fails, &mut dist);
+                            let _ = guarded(&mut guard, &format!("hpack-back[{name}/h2tls]"), &mut fails, &mut dist, |fails, dist| case_back_hpack(&mut ctx, Some(&mut t), name, start, &steps, fails, dist));
                             evaluations += 1;
                         }
                         // HTTP/1.1 front: one request per backend connection (a second one on a kept-alive
                         // session gets 502, see the report), so only the connection-start settings
                         for v in [0u32, 100, 65536] {
-                            let _ = case_back_hpack(&mut ctx, None, "start-only", Some(v), &[HpStep::Request { set: 0, body: 2, during: None }], &mut fails, &mut dist);
+                            let _ = guarded(&mut guard, "hpack-back[start-only/h1]", &mut fails, &mut dist, |fails, dist| case_back_hpack(&mut ctx, None, "start-only", Some(v), &[HpStep::Request { set: 0, body: 2, during: None }], fails, dist));
                             evaluations += 1;
                         }
                     }
@@ -2696,13 +2963,13 @@ fn main() {
                 }
                 if family == "hpack" {
                     ctx.w.stop();
-                    finish(&args, evaluations, &dist, &samples, &fails, &known_witnesses, t0);
+                    finish(&args, evaluations, &dist, &samples, &mut fails, &known_witnesses, &guard, t0);
                     return;
                 }
                 for spec in h2front_specs(&mut frng, &args.prop) {
-                    let case = case_h2front(&mut ctx, &mut t, &spec, &args.prop, &mut fails, &mut dist);
+                    let case = guarded(&mut guard, &format!("h2front[{}]", spec.name), &mut fails, &mut dist, |fails, dist| case_h2front(&mut ctx, &mut t, &spec, &args.prop, fails, dist));
                     evaluations += 1;
-                    if samples.len() < 3 {
+                    if let (Some(case), true) = (case, samples.len() < 3) {
                         samples.push(json!({"case": case}));
                     }
                 }
@@ -2715,7 +2982,7 @@ fn main() {
     }
     if family == "h2front" || args.prop == "C03" {
         ctx.w.stop();
-        finish(&args, evaluations, &dist, &samples, &fails, &known_witnesses, t0);
+        finish(&args, evaluations, &dist, &samples, &mut fails, &known_witnesses, &guard, t0);
         return;
     }
     // ---- overlapping upload / download under back-pressure (h2c backend) ----
@@ -2733,9 +3000,9 @@ fn main() {
         };
         let t1 = Instant::now();
         for plan in &plans {
-            let case = case_overlap_h2c(&mut ctx, plan, &mut fails, &mut dist);
+            let case = guarded(&mut guard, "overlap-h2c", &mut fails, &mut dist, |fails, dist| case_overlap_h2c(&mut ctx, plan, fails, dist));
             evaluations += 1;
-            if samples.len() < 4 {
+            if let (Some(case), true) = (case, samples.len() < 4) {
                 samples.push(json!({"case": case}));
             }
             if !ctx.w.alive().is_alive() {
@@ -2745,12 +3012,18 @@ fn main() {
         }
         if thorough || family == "overlap-front" {
             match new_tls_listener(&mut ctx) {
-                Err(e) => fails.push(Fail { class: "rig-setup".into(), detail: e, case: "overlap-h2front".into() }),
+                Err(e) => {
+                    guard.inconclusive += 1;
+                    guard.notes.push(format!("overlap-h2front https listener set-up: {e}"));
+                    evaluations += 1;
+                }
                 Ok(mut t) => {
                     for (u, d, rc) in [(4usize << 20, 24usize << 20, 4096usize), (8 << 20, 16 << 20, 1024), (1 << 20, 32 << 20, 16384)] {
-                        let case = case_overlap_h2front(&mut ctx, &mut t, u, d, rc, &mut fails, &mut dist);
+                        let case = guarded(&mut guard, "overlap-h2front", &mut fails, &mut dist, |fails, dist| case_overlap_h2front(&mut ctx, &mut t, u, d, rc, fails, dist));
                         evaluations += 1;
-                        samples.push(json!({"case": case}));
+                        if let Some(case) = case {
+                            samples.push(json!({"case": case}));
+                        }
                     }
                 }
             }
@@ -2758,7 +3031,7 @@ fn main() {
         dist.insert("overlap_wall_ms".into(), t1.elapsed().as_millis() as u64);
         if family == "overlap" || family == "overlap-front" {
             ctx.w.stop();
-            finish(&args, evaluations, &dist, &samples, &fails, &known_witnesses, t0);
+            finish(&args, evaluations, &dist, &samples, &mut fails, &known_witnesses, &guard, t0);
             return;
         }
     }
@@ -2768,18 +3041,32 @@ fn main() {
     {
         let plan = H2Plan { init_window: Some(1000), conn_bump: 1 << 20, stingy: true, drip: 1000, read_max: 1 << 16, read_pause: Duration::ZERO, resp_body: b"ok".to_vec(), resp_content_length: true };
         let before = fails.len();
-        let (case, rep) = case_h1_h2c(&mut ctx, &mut rng, 5000, plan, false, &mut fails, &mut dist, "witness-small-window");
+        let r = guarded(&mut guard, "witness-small-window", &mut fails, &mut dist, |fails, dist| case_h1_h2c(&mut ctx, &mut rng, 5000, plan, false, fails, dist, "witness-small-window"));
         evaluations += 1;
-        let hit = fails[before..].iter().any(|f| f.class == "h2c-backend-stream-window-exceeded-by-one");
-        known_witnesses.push(json!({"class": "h2c-backend-stream-window-exceeded-by-one", "reproduced": hit, "case": case, "over_by": rep.max_over_stream}));
-        samples.push(json!({"case": case, "frames": rep.frames, "violations": rep.violations.len(), "over_by": rep.max_over_stream}));
+        if let Some((case, rep)) = r {
+            let hit = fails[before..].iter().any(|f| f.class == "h2c-backend-stream-window-exceeded-by-one");
+            known_witnesses.push(json!({"class": "h2c-backend-stream-window-exceeded-by-one", "reproduced": hit, "case": case, "over_by": rep.max_over_stream}));
+            samples.push(json!({"case": case, "frames": rep.frames, "violations": rep.violations.len(), "over_by": rep.max_over_stream}));
+        }
     }
     // W2: RFC-default stream window (65535), large connection window, body of 70000
     {
         let plan = H2Plan { init_window: None, conn_bump: 1 << 20, stingy: true, drip: 65535, read_max: 1 << 16, read_pause: Duration::ZERO, resp_body: pattern(3, 70000), resp_content_length: false };
-        let (case, rep) = case_h1_h2c(&mut ctx, &mut rng, 70000, plan, false, &mut fails, &mut dist, "witness-default-window");
+        let r = guarded(&mut guard, "witness-default-window", &mut fails, &mut dist, |fails, dist| case_h1_h2c(&mut ctx, &mut rng, 70000, plan, false, fails, dist, "witness-default-window"));
         evaluations += 1;
-        samples.push(json!({"case": case, "frames": rep.frames, "violations": rep.violations.len(), "over_by": rep.max_over_stream}));
+        if let Some((case, rep)) = r {
+            samples.push(json!({"case": case, "frames": rep.frames, "violations": rep.violations.len(), "over_by": rep.max_over_stream}));
+        }
+    }
+    // ---- corpus: second request on a kept-alive HTTP/1.1 connection towards an h2c backend ----
+    if args.prop != "C14" {
+        for req_len in [0usize, 9, 20000] {
+            let case = guarded(&mut guard, "h1-h2c-keepalive", &mut fails, &mut dist, |fails, dist| case_h1_h2c_keepalive(&mut ctx, req_len, fails, dist));
+            evaluations += 1;
+            if let (Some(case), true) = (case, req_len == 9) {
+                samples.push(json!({"case": case}));
+            }
+        }
     }
     if !ctx.w.alive().is_alive() {
         fails.push(Fail { class: "worker-died".into(), detail: format!("{:?}", ctx.w.exit_state()), case: "after witnesses".into() });
@@ -2788,6 +3075,7 @@ fn main() {
     // ---- exploration ----
     let mut tls: Option<TlsCtx> = None;
     let mut i = 0u64;
+    let mut no_worker = false;
     while t0.elapsed() < budget && std::env::var("E2E_ONLY_WITNESSES").is_err() {
         i += 1;
         if i % 40 == 0 || !ctx.w.alive().is_alive() {
@@ -2799,7 +3087,10 @@ fn main() {
             ctx = match new_ctx() {
                 Ok(c) => c,
                 Err(e) => {
-                    fails.push(Fail { class: "rig-setup".into(), detail: e, case: format!("case {i}") });
+                    guard.inconclusive += 1;
+                    guard.notes.push(format!("worker + listener set-up before case {i}: {e}"));
+                    evaluations += 1;
+                    no_worker = true;
                     break;
                 }
             };
@@ -2818,8 +3109,8 @@ fn main() {
                     rs = rs.min(100);
                 }
                 let stingy = rng.chance(1, 2);
-                let case = case_h2_h1(&mut ctx, t, &mut rng, rq, rs, iw, stingy, &mut fails, &mut dist);
-                if samples.len() < 8 {
+                let case = guarded(&mut guard, "h2tls-h1", &mut fails, &mut dist, |fails, dist| case_h2_h1(&mut ctx, t, &mut rng, rq, rs, iw, stingy, fails, dist));
+                if let (Some(case), true) = (case, samples.len() < 8) {
                     samples.push(json!({"case": case}));
                 }
                 continue;
@@ -2827,8 +3118,8 @@ fn main() {
         }
         // under C14 only the h2c pairs matter (peer limits, transfers keep moving)
         if args.prop != "C14" && rng.chance(1, 2) {
-            let case = case_h1_h1(&mut ctx, &mut rng, &sizes, &mut fails, &mut dist);
-            if samples.len() < 4 {
+            let case = guarded(&mut guard, "h1-h1", &mut fails, &mut dist, |fails, dist| case_h1_h1(&mut ctx, &mut rng, &sizes, fails, dist));
+            if let (Some(case), true) = (case, samples.len() < 4) {
                 samples.push(json!({"case": case}));
             }
         } else {
@@ -2854,8 +3145,8 @@ fn main() {
                 resp_content_length: rng.chance(1, 2),
             };
             let n = *rng.pick(&sizes);
-            let (case, rep) = case_h1_h2c(&mut ctx, &mut rng, n, plan, slow, &mut fails, &mut dist, if slow { "slow-reader" } else { "fast" });
-            if samples.len() < 6 {
+            let r = guarded(&mut guard, "h1-h2c", &mut fails, &mut dist, |fails, dist| case_h1_h2c(&mut ctx, &mut rng, n, plan, slow, fails, dist, if slow { "slow-reader" } else { "fast" }));
+            if let (Some((case, rep)), true) = (r, samples.len() < 6) {
                 samples.push(json!({"case": case, "frames": rep.frames}));
             }
         }
@@ -2863,23 +3154,32 @@ fn main() {
             break;
         }
     }
-    if !ctx.w.alive().is_alive() {
+    if !no_worker && !ctx.w.alive().is_alive() {
         fails.push(Fail { class: "worker-died".into(), detail: format!("{:?}", ctx.w.exit_state()), case: "end".into() });
     }
     ctx.w.stop();
-    finish(&args, evaluations, &dist, &samples, &fails, &known_witnesses, t0);
+    finish(&args, evaluations, &dist, &samples, &mut fails, &known_witnesses, &guard, t0);
 }
 
-fn finish(args: &verif_harness::Args, evaluations: u64, dist: &BTreeMap<String, u64>, samples: &[Value], fails: &[Fail], known: &[Value], t0: Instant) {
+fn finish(args: &verif_harness::Args, evaluations: u64, dist: &BTreeMap<String, u64>, samples: &[Value], fails: &mut Vec<Fail>, known: &[Value], guard: &Guard, t0: Instant) {
+    // more than 5 % of the transfers without an observation: the run says too little
+    if guard.inconclusive * 20 > evaluations.max(1) {
+        fails.push(Fail {
+            class: "harness-inconclusive".into(),
+            detail: format!("{} of {} transfers inconclusive (harness set-up could not be completed / harness panic): {}", guard.inconclusive, evaluations, guard.notes.iter().take(4).cloned().collect::<Vec<_>>().join(" | ")),
+            case: "-".into(),
+        });
+    }
+    let fails: &[Fail] = fails;
     // at most 3 failures per class
     let mut per: BTreeMap<String, usize> = BTreeMap::new();
     let mut out = vec![];
     // C14 reports the peer-limit and liveness classes; byte-exactness classes belong to C01
     let relevant = |class: &str| {
-        let setup = class == "worker-died" || class == "rig-setup";
+        let setup = class == "worker-died" || class == "rig-setup" || class == "harness-inconclusive" || class == "listener-connect-failed";
         match args.prop.as_str() {
             // peer limits and liveness
-            "C14" => setup || class.starts_with("h2c-") || class.starts_with("h2-front-") || class.starts_with("h2tls-h1-response-stalled") || class.starts_with("h1-h2c-") || class == "h2front-response-stalled" || class == "h2-frame-sync-lost-mid-data" || class == "body-corrupted-under-backpressure" || class.starts_with("hpack-"),
+            "C14" => setup || class.starts_with("h2c-") || class.starts_with("h2-front-") || class.starts_with("h2tls-h1-response-stalled") || (class.starts_with("h1-h2c-") && class != "h1-h2c-keepalive-second-request-502") || class == "h2front-response-stalled" || class == "h2-frame-sync-lost-mid-data" || class == "body-corrupted-under-backpressure" || class.starts_with("hpack-"),
             // request boundaries at the backend
             "C03" => setup || class.starts_with("h2-h1-") || class.starts_with("c03-"),
             // C01: byte-exactness and clean ends; the window-ledger classes are C14's, the trailer classes C03's
@@ -2899,13 +3199,19 @@ fn finish(args: &verif_harness::Args, evaluations: u64, dist: &BTreeMap<String, 
         "rule": "real worker (rig), HTTP/1.1 client with imposed write segmentation; backend HTTP/1.1 (Content-Length / chunked / close-delimited answers, 1..3 keep-alive requests) or scripted h2c backend with its own window ledger (initial window, connection bump, drip size, slow reader with 4 KiB receive buffer); body sizes 0,1,9,100,16383..16385,16392..16394 (buffer_size),32768,65535..65537,70000,200000 both ways; two fixed flow-control witnesses first; non-trivial = every transfer (each is a full proxied exchange)",
         "samples": samples, "traces_validated_against_impl": evaluations, "disagreements_checked": evaluations,
         "distribution": dist, "failures": out, "known_witnesses": known,
-        "extra": {"failure_counts": per}, "wall_s": t0.elapsed().as_secs_f64(),
+        "extra": {"failure_counts": per, "inconclusive": guard.inconclusive, "inconclusive_notes": guard.notes}, "wall_s": t0.elapsed().as_secs_f64(),
     });
     if !args.out.is_empty() {
-        std::fs::write(&args.out, serde_json::to_string_pretty(&res).unwrap()).unwrap();
+        let text = serde_json::to_string_pretty(&res).unwrap_or_else(|e| format!("{{\"error\": \"{e}\"}}"));
+        if let Err(e) = std::fs::write(&args.out, text) {
+            eprintln!("e2ebody: cannot write {}: {e}", args.out);
+        }
     }
     let shown: Vec<&Fail> = fails.iter().filter(|f| relevant(&f.class)).collect();
-    println!("e2ebody: {evaluations} transfers, {} failure(s) in {} class(es) for {}", shown.len(), per.len(), args.prop);
+    println!("e2ebody: {evaluations} transfers ({} inconclusive), {} failure(s) in {} class(es) for {}", guard.inconclusive, shown.len(), per.len(), args.prop);
+    for n in guard.notes.iter().take(5) {
+        println!("  inconclusive: {n}");
+    }
     for (c, n) in &per {
         println!("FAIL oracle {c} x{n}");
     }
